@@ -78,12 +78,22 @@ func isMethod(obj types.Object, pkg, recv, name string) bool {
 	if !ok || f.Pkg() == nil || f.Pkg().Path() != pkg || f.Name() != name {
 		return false
 	}
-	return recvTypeName(f) == recv
+	if recvTypeName(f) == recv {
+		return true
+	}
+	// the method was moved to another receiver (a function of this name new to the rules, the only one): see Prog.Func
+	if isNewFunc(f) && gProg != nil && len(pkg) > len(modPath) {
+		if fi := gProg.Func(pkg[len(modPath)+1:], recv, name); fi != nil && fi.Obj == f {
+			return true
+		}
+	}
+	return false
 }
 
 // constName returns the name of the constant object an expression denotes (e.g. spb.AFTResult_FAILED → "AFTResult_FAILED").
 func constName(info *types.Info, e ast.Expr) string {
 	e = ast.Unparen(e)
+	e = viaFrames(info, e)
 	switch x := e.(type) {
 	case *ast.Ident:
 		if c, ok := info.Uses[x].(*types.Const); ok {
@@ -594,4 +604,48 @@ func fstr(f Formula) string {
 		return "nil"
 	}
 	return fmt.Sprintf("%T", f)
+}
+
+// fieldOwner: the name of the named struct type of the field's package that declares the field ("" when none).
+func fieldOwner(fv *types.Var) string {
+	if fv == nil || fv.Pkg() == nil {
+		return ""
+	}
+	sc := fv.Pkg().Scope()
+	for _, n := range sc.Names() {
+		tn, ok := sc.Lookup(n).(*types.TypeName)
+		if !ok {
+			continue
+		}
+		st, ok := tn.Type().Underlying().(*types.Struct)
+		if !ok {
+			continue
+		}
+		for i := 0; i < st.NumFields(); i++ {
+			if st.Field(i) == fv {
+				return tn.Name()
+			}
+		}
+	}
+	return ""
+}
+
+// viaFrames: a parameter of the helper being enumerated in line (curFrames) stands for the argument it is bound to.
+func viaFrames(info *types.Info, e ast.Expr) ast.Expr {
+	e = ast.Unparen(e)
+	for hops := 0; hops < 4; hops++ {
+		id, ok := e.(*ast.Ident)
+		if !ok {
+			break
+		}
+		var arg ast.Expr
+		for i := len(curFrames) - 1; i >= 0 && arg == nil; i-- {
+			arg = curFrames[i].Binds[info.ObjectOf(id)]
+		}
+		if arg == nil {
+			break
+		}
+		e = ast.Unparen(arg)
+	}
+	return e
 }
